@@ -13,6 +13,12 @@ from .c07 import g3_threading
 LEVEL = "other"
 
 
+def open_writes(chk, repo):
+    """C10-W6: a default open never writes (vlib/openmodel.py)"""
+    from .open_rules import open_rules
+    open_rules(chk, repo, "C10-W6", ('write', 'lookup', 'write-args'), "open_image with recording collaborators: opening writes exactly when create_cache is set, whatever the cache state")
+
+
 def run(chk, repo):
     op = OpenPath(repo)
     chk.explanation = (
@@ -28,6 +34,7 @@ def run(chk, repo):
     chk.rule("C10-W3", "no module-level state is written and nothing is memoised on the open path", 1)
     chk.rule("C10-W4", "groups are adjusted on copies only; move_items pops from a deep copy", 2)
     chk.attempt(w1, chk, op)
+    chk.attempt(open_writes, chk, repo)
     chk.attempt(w2, chk, op)
     chk.attempt(w2_defaults, chk, op)
     chk.attempt(w3, chk, op)
